@@ -50,6 +50,30 @@ def canon_json(b):
     return json.dumps(json.loads(b), sort_keys=True)
 
 
+def text_leaves(x, out=None):
+    """All text values inside a parsed object, code point by code point (a JSON round trip
+    cannot tell a non-BMP character from the two lone surrogates a careless parser makes of it)."""
+    out = [] if out is None else out
+    if isinstance(x, str):
+        out.append([ord(c) for c in x])
+    elif isinstance(x, dict):
+        for k in sorted(x, key=str):
+            text_leaves(k, out)
+            text_leaves(x[k], out)
+    elif isinstance(x, (list, tuple, set, frozenset)):
+        for y in (sorted(x, key=repr) if isinstance(x, (set, frozenset)) else x):
+            text_leaves(y, out)
+    elif hasattr(x, "dict") and callable(x.dict):
+        text_leaves(x.dict(), out)
+    return out
+
+
+def same_object(cls, stored_json, got):
+    """got is the view through cls of the object whose stored JSON is stored_json."""
+    exp = cls.parse_obj(json.loads(stored_json))
+    return canon_json(exp.json()) == canon_json(got.json()) and sorted(text_leaves(exp.dict())) == sorted(text_leaves(got.dict()))
+
+
 class Drv:
     def __init__(self, kind, d):
         self.kind = kind
@@ -91,6 +115,7 @@ class CWorld:
         os.makedirs(os.path.join(scratch, "files"), exist_ok=True)
         self.ref = h5py.File(os.path.join(scratch, "ref", "plain.h5"), "w")
         self.meta = {}  # path -> {schema name -> {"name","version","json"}}
+        self.kept_node = None
         self.held = {}  # driver kind -> (path, MetadorMeta handle kept over consecutive meta ops)
         self.packed = {}  # path -> hex of bytes
         self.faults = {}
@@ -168,6 +193,7 @@ class CWorld:
     # ------------------------------------------------------------ raw-tree oracle (C06)
 
     def toc_oracle(self, dv, when):
+        self._toc_partial = None
         raw, errs = V.dump_tree(dv.raw)
         if errs:
             raise Violation("C06", "raw-read-error", f"[{dv.kind}] {when}: raw tree unreadable: {errs[:2]}")
@@ -233,6 +259,8 @@ class CWorld:
             objs[uuid] = (ep, p, mdir, ent)
             sname = ep.split("__")[0]
             per_dir_names.setdefault(mdir, []).append(sname)
+        # the stored objects are known from here on, whatever the remaining C06 oracles say
+        self._toc_partial = (raw, objs)
         # owners
         for md in metadirs:
             segs = md.split("/")
@@ -391,7 +419,7 @@ class CWorld:
                 ok = False
                 for c in cands:
                     try:
-                        if canon_json(cls.parse_obj(json.loads(c["json"])).json()) == canon_json(pv.json()):
+                        if same_object(cls, c["json"], pv):
                             ok = True
                     except Exception:
                         pass
@@ -634,6 +662,10 @@ class CWorld:
     def meta_of(self, dv, p, op):
         """The node's metadata interface: a fresh one, or (op['held']) the handle kept from
         the previous consecutive metadata operation at the same node."""
+        if op.get("kept") and dv.kind == "h5" and self.kept_node is not None and self.kept_node[0] == p:
+            # an h5py node object follows the node it names through a move
+            self.probe("kept_node_object_used_after_move")
+            return self.kept_node[1].meta
         if not op.get("held"):
             return dv.mc[p].meta
         h = self.held.get(dv.kind)
@@ -643,6 +675,30 @@ class CWorld:
         m = dv.mc[p].meta
         self.held[dv.kind] = (p, m)
         return m
+
+    def op_kept_move(self, op):
+        """h5py driver: keep a node object, look at its metadata, move the node through the
+        container, then attach through the kept object (it names the moved node). The IH5
+        drivers, whose node objects are paths, do the same with a fresh lookup."""
+        src = self.norm(op["src"])
+        kept = None
+        if src != "/" and self.ref_kind(src) is not None:
+            for dv in self.drv:
+                if dv.kind == "h5":
+                    try:
+                        kept = dv.mc[src]
+                        list(kept.meta.keys())
+                    except Exception as e:
+                        raise Violation("C08", "kept-node-raised", f"[h5] taking {src} and listing its metadata raised {type(e).__name__}: {e}")
+        out = self.op_data({"op": "move", "base": "/", "src": src, "dst": op["dst"]})
+        dst = self.norm(op["dst"])
+        if out != "ok" or self.ref_kind(dst) is None:
+            return "moved-not"
+        self.kept_node = (dst, kept) if kept is not None else None
+        try:
+            return self.op_meta_set({"op": "meta_set", "path": dst, "schema": op["schema"], "version": op["version"], "idx": op["idx"], "how": "name", "as": "dict", "kept": True})
+        finally:
+            self.kept_node = None
 
     def held_keys_check(self, p, op):
         """keys()/len()/in of a held metadata interface agree with what is attached."""
@@ -769,7 +825,7 @@ class CWorld:
             okc = False
             for c in cands:
                 try:
-                    if canon_json(cls.parse_obj(json.loads(c["json"])).json()) == canon_json(got.json()):
+                    if same_object(cls, c["json"], got):
                         okc = True
                 except Exception:
                     pass
@@ -838,6 +894,8 @@ class CWorld:
             out = self.op_boundary(op)
         elif k == "reopen":
             out = self.op_reopen(op)
+        elif k == "kept_move":
+            out = self.op_kept_move(op)
         elif k in EXTRA_OPS:
             out = EXTRA_OPS[k](self, op)
         else:
@@ -867,7 +925,10 @@ class CWorld:
             # raw-tree TOC oracle, attached-set and user views run on all drivers every step
             full = (not light) and (all_drivers or dv is heavy)
             res = run(self.toc_oracle, dv, when)
-            if res is None:
+            if res is None and getattr(self, "_toc_partial", None):
+                # a TOC (C06) violation must not switch off the oracles of the other properties
+                raw, objs = self._toc_partial
+            elif res is None:
                 try:
                     raw, _ = V.dump_tree(dv.raw)
                 except Exception:
@@ -1131,6 +1192,17 @@ class ContainerEngine:
                 fresh_attach = "bad" not in op and op["schema"] not in ("verif.aux", "verif.ghost") and op["path"] in sh.nodes and (op["path"], op["schema"]) not in ms.pairs()
                 if "bad" not in op and op["schema"] not in ("verif.aux", "verif.ghost") and op["path"] in sh.nodes:
                     ms.add(op["path"], op["schema"])
+                if g.random() < (0.25 if prop == "C08" else 0.06) and op["path"] in sh.nodes and op["path"] != "/" and "bad" not in op:
+                    # the node is moved while a node object is kept, then more metadata through that object
+                    ops.append(op)
+                    counter[0] += 1
+                    n2, v2 = g.choice(VS.ATTACHABLE)
+                    km = {"op": "kept_move", "src": op["path"], "dst": "/" + dgen.key() + f"_k{counter[0]}", "schema": n2, "version": list(v2), "idx": counter[0]}
+                    mv = {"op": "move", "base": "/", "src": km["src"], "dst": km["dst"]}
+                    sh.apply(mv)
+                    ms.drop(km["src"])
+                    ops.append(km)
+                    continue
                 if g.random() < 0.3:
                     # a burst of metadata operations through one kept node.meta handle
                     op["held"] = True
@@ -1196,9 +1268,31 @@ class ContainerEngine:
                     op.update(len=1, content="marker")
                 if g.random() < 0.2:
                     op["via_symlink"] = True
+                echo = None
+                if g.random() < 0.15:
+                    # embed below a group whose name occurs again further down (/G/k/G/file),
+                    # then copy or move /G: relative names of descendants must survive
+                    tops = [q for q in sh.groups() if q != "/" and q.count("/") == 1]
+                    if tops:
+                        echo = g.choice(tops)
+                        deep = echo + "/" + dgen.key() + echo
+                        cg = {"op": "create_group", "base": "/", "path": deep.lstrip("/")}
+                        if sh.apply(cg) is not False and deep in sh.nodes:
+                            ops.append(cg)
+                            op["base"] = deep
+                            if "/" in op["target"]:
+                                op["target"] = dgen.key() + f"_f{counter[0]}"
+                        else:
+                            echo = None
                 if "/" not in op["target"]:
                     sh.create(T.Shadow.join(op["base"], op["target"]), "d")
                 ops.append(op)
+                if echo and g.random() < 0.7:
+                    if g.random() < 0.4:
+                        ops.append({"op": "boundary"})
+                    cp = {"op": g.choice(["copy", "copy", "move"]), "base": "/", "src": echo, "dst": "/" + dgen.key() + f"_e{counter[0]}"}
+                    sh.apply(cp)
+                    ops.append(cp)
             elif k == "reserved":
                 ops.append(gen_reserved(g, sh, ms))
             elif k == "actor":
